@@ -305,4 +305,55 @@ theorem step_isolated (c : Cfg) (s s' : Sys) (op : Op) (inv : Inv s) (ht : i2eCo
         · exact ih hxs e1 e2
   exact ho (this _ hnd h1 h2)
 
+/-- **allocation is monotone**: no engine op clears a bitmap bit (the engine never frees a page) -/
+theorem step_mono (c : Cfg) (s s' : Sys) (op : Op) (ok : PgOK s.pg) (h : step c s op = .ok s') :
+    ∀ p, p ∈ s.pg.bits → p ∈ s'.pg.bits := by
+  intro q hq
+  cases op with
+  | alloc o =>
+    simp only [step] at h
+    cases ha : allocate c s.pg with
+    | error e => simp [ha] at h
+    | ok r =>
+      obtain ⟨p, pg'⟩ := r
+      simp only [ha, Except.ok.injEq] at h
+      subst h
+      simp only [writePage]; rw [claim_pg]
+      exact (allocate_spec c s.pg pg' p ok ha).2.2.1 q hq
+  | rewrite o p =>
+    simp only [step] at h
+    split at h
+    · cases hacc : access c s.pg p with
+      | error e => simp [hacc] at h
+      | ok u =>
+        simp only [hacc, Except.ok.injEq] at h
+        subst h; exact hq
+    · cases h
+  | createNode =>
+    simp only [step, createNode] at h
+    have put : ∀ (st : Nat) (s1 : Sys), PgOK s1.pg → q ∈ s1.pg.bits → putRecord c st s1 = .ok s' → q ∈ s'.pg.bits := by
+      intro st s1 ok1 hq1 hp
+      unfold putRecord at hp
+      simp only at hp
+      cases he : ensure c s1.pg (i2ePage c st s1.i2eLen) with
+      | error e => simp [he] at hp
+      | ok pg' =>
+        simp only [he, Except.ok.injEq] at hp
+        subst hp
+        simp only [writePage]; rw [claim_pg]
+        exact (ensure_spec c s1.pg pg' _ ok1 he).2.1 q hq1
+    cases hst : s.i2eStart with
+    | some st =>
+      simp only [ensureStart, hst] at h
+      exact put st s ok hq h
+    | none =>
+      simp only [ensureStart, hst] at h
+      cases ha : allocate c s.pg with
+      | error e => simp [ha] at h
+      | ok r =>
+        obtain ⟨p, pg'⟩ := r
+        simp only [ha] at h
+        obtain ⟨_, _, hm, hok⟩ := allocate_spec c s.pg pg' p ok ha
+        exact put p _ (by rw [claim_pg]; exact hok) (by rw [claim_pg]; exact hm q hq) h
+
 end Nervus.Pager
